@@ -9,7 +9,9 @@ _X = ["aes/ni_model.rs", "aes/x_ni.rs"]
 _HZ = ["aes/ni_model.rs", "aes/c17_ni.rs"]
 PLAN = {
     "C02": [("aes:ni", _NI)],
-    "C03": [("aes:ni", _NI), ("aes:ni+hazmat", _HZ)],
+    # C03: besides the default build, the AES-128 conformance wiring is re-run with the optional features on
+    # (zeroize, hazmat): a feature that altered an encrypt/decrypt path would fail there
+    "C03": [("aes:ni", _NI), ("aes:ni+hazmat", _HZ + ["aes/c02_ni.rs"]), ("aes:ni+zeroize", _NI)],
     "C12": [("aes:ni", _NI + ["aes/x_ni.rs"])],
     "C13": [("aes:ni", _NI)],
     "C04": [("aes:ni", _X), ("aes:ni+hazmat", _HZ)],
